@@ -84,6 +84,11 @@ CLAIMED = {
    text="Decides: every value appended to a result is the element just read from the first input in one complete forward scan (nothing foreign, first-occurrence order); appends happen only on the 'not yet seen' edge of a local seen-map lookup updated with the same key on the same path, or of Contains(result, element); Without/Difference(By) compare the element with every entry of the exclusion list and the equality edge cannot reach the append; comparisons and membership tests are like with like; Intersection(By) accept exactly when the scan j = 1..len(params) over the other inputs ran to completion with membership of the element in params[j]; Duplicate(WithIndex) emit only under count > 1; Union/Flatten propagate the flattening error, malformed nesting reaches an error return, the flatten accumulator grows by appends only; no mutable globals, no goroutines. Exact membership for concrete inputs is not decided.",
    note="Trusted: go/ssa; Contains is the quantifier checked by C13; callbacks pure.",
    ref="DESIGN.md section 3 E3/E5, section 4 C11"),
+ "C14": dict(
+   technique="pairing of key/value access paths relative to the iteration tuple (PV2), exact per-element decision sets by edge dominance (PV3), sibling agreement (AG5), must-pass-through sort before selection, loop-depth once-rules, helper hygiene on go/ssa over map.go/filter.go",
+   text="Decides: every site that puts an entry into a result pairs key and value as promised - MapValues (k, fn(v)), MapKeys (fn(k,v), v), Invert (m[x], x), Pick/PickBy (k, collection[k]), FilterMap/FindByKey/MapUnique (k, v), SliceToMap (s1[i], s2[i]) under equal lengths, Keys/Values/MapCollection one cell per iteration - under exactly the per-element decision promised (fn(v), fn(k), fn(k,v), Contains(keys,k), not-seen) and no other; Pick/Omit and PickBy/OmitBy decide on the same call with opposite action; 'one entry' functions leave the loop after emitting, collection filters and PartitionMap emit once per input map in input order by append only; Find selects from keys that passed sort.Slice with a < comparator on that slice, and no function with a definite result leaves a range over a map early; quantifiers return at once on the deciding edge and their default after the whole range; no goroutines, no mutable globals. Choices the statement leaves open and duplicate values are not decided.",
+   note="Trusted: go/ssa; Contains checked by C13; callbacks pure; table of promised pairings frozen in props/c14.go.",
+   ref="DESIGN.md section 3 E3, section 4 C14"),
 }
 
 NOT_YET = "check not built yet (static-analysis engines under construction; see DESIGN.md section 7)"
